@@ -8,6 +8,7 @@ require (
 	github.com/ipfs/go-cid v0.0.7
 	github.com/ipfs/go-datastore v0.4.5
 	github.com/ipfs/go-ipld-cbor v0.0.5
+	github.com/ipfs/go-path v0.0.9
 	github.com/ipfs/ipfs-cluster v0.0.0
 	github.com/libp2p/go-libp2p v0.14.3
 	github.com/libp2p/go-libp2p-core v0.8.5
@@ -93,7 +94,6 @@ require (
 	github.com/ipfs/go-merkledag v0.3.2 // indirect
 	github.com/ipfs/go-metrics-interface v0.0.1 // indirect
 	github.com/ipfs/go-mfs v0.1.3-0.20210507195338-96fbfa122164 // indirect
-	github.com/ipfs/go-path v0.0.9 // indirect
 	github.com/ipfs/go-peertaskqueue v0.2.0 // indirect
 	github.com/ipfs/go-unixfs v0.2.6 // indirect
 	github.com/ipfs/go-verifcid v0.0.1 // indirect
